@@ -313,5 +313,8 @@ def run(ctx):
                               f"`action=send+message` is read back as `send+message`")
         else:
             ctx.ok("C11.query-codec", f"C11.query-codec:{ty}", w.where(parse), "Display does not use the form-urlencoded serializer" + (" (parse does: `+` in a written value is percent-encoded, see C11.encode)" if reads_form else ""))
+    # an event URI's room part is read back as RoomOrAliasId, a room URI's as RoomId / RoomAliasId: what one accepts the other must accept
+    from . import C10 as _C10
+    _C10.or_alias_dispatch_rule(ctx, w, "C11.or-alias")
     ctx.assumptions += ["percent-encoding / form_urlencoded / url crates behave as documented", "round-trip equality for all values is not decided"]
     ctx.samples += [{"id": "@a%41:example.org", "needs": "'%' in the encode set, otherwise it parses back as @aA:example.org"}]
